@@ -40,9 +40,25 @@ import (
 )
 
 type knownFuncs struct {
-	Provenance string              `json:"provenance"`
-	Functions  map[string][]string `json:"functions"`
-	Types      map[string][]string `json:"types"`
+	Provenance string                          `json:"provenance"`
+	Functions  map[string][]string             `json:"functions"`
+	Types      map[string][]string             `json:"types"`
+	Prints     map[string]map[string]funcPrint `json:"fingerprints"` // per package: function key -> signature and body references
+	Fields     map[string]map[string][][2]string `json:"fields"`     // per package: struct type -> ordered (field, type)
+	Vars       map[string]map[string]string      `json:"vars"`       // per package: unexported package-level variable -> type
+}
+
+// loadKnownOracle returns the whole oracle (for rename recognition).
+func loadKnownOracle(verif string) *knownFuncs {
+	b, err := os.ReadFile(filepath.Join(verif, "oracles", "known_functions.json"))
+	if err != nil {
+		return nil
+	}
+	var k knownFuncs
+	if json.Unmarshal(b, &k) != nil {
+		return nil
+	}
+	return &k
 }
 
 func loadKnownFuncs(verif string) map[string]map[string]bool {
